@@ -154,8 +154,15 @@ def jpoison(n, ents, k, pid):
 BASE = [(1, 1, 0), (2, 1, 0), (3, 1, 0)]
 
 
+def _uses_two_ids(c):
+    ids = {e.get("id", 0) for e in c["events"] if e["k"] == "http"}
+    return 1 in ids and 2 in ids
+
+
 def witness_cases():
     base = _witness_cases()
+    # the same histories with sync ids 1 and 2 sent as 77-byte strings that differ in their last byte only
+    base = base + [dict(c, long_ids=True) for c in base if _uses_two_ids(c)]
     return base + [mk(c["events"], True) for c in base
                    if not c["pipeline"] and any(e["k"] == "jstart" for e in c["events"])] + [
         # a job run that fails between two pages never ends its sync; the next run starts over
@@ -196,6 +203,12 @@ def _witness_cases():
         mk([plain(BASE), jstart(1), jbatch(1, [(1, 2, 0)]), plain([(4, 1, 0)]), http([(5, 1, 0)], False, 3), EXPIRE,
             jbatch(1, [(2, 2, 0)]), jend(1)]),
         mk([plain(BASE), jstart(1), plain([]), http([], False, 3, True), EXPIRE, plain([(2, 2, 0)]), jend(1)]),
+        # an end request / end call whose context is already cancelled tombstones nothing and drops the sync
+        mk([plain(BASE + [(4, 1, 0)]), http([(1, 2, 0)], True, 1), dict(http([(2, 2, 0)], False, 1, True), cancelled=True),
+            http([], False, 1, True), http([(3, 2, 0)], True, 1, True)]),
+        mk([plain(BASE + [(4, 1, 0)]), jstart(1), jbatch(1, [(1, 2, 0)]), dict(jend(1), cancelled=True), jend(1)]),
+        mk([plain(BASE), http([(1, 2, 0)], True, 1), dict(http([], False, 2, True), cancelled=True),
+            dict(http([], False, 0, True), cancelled=True), http([], False, 1, True)]),
         # live entities whose stored json contains "deleted":true inside a nested sub-entity (contents 7, 8) are
         # tombstoned like any other entity the completed sync did not contain
         mk([plain([(1, 1, 0), (2, 7, 0), (3, 1, 0), (4, 8, 0)]), http([(1, 2, 0)], True, 1), http([], False, 1, True),
@@ -514,6 +527,18 @@ def http_sink_history(rng):
 
 
 def gen(rng, tier):
+    out = _gen(rng, tier)
+    for c in out:
+        c["long_ids"] = rng.chance(1, 2)
+        # now and then the context of an end request / a job's end call is already cancelled
+        if rng.chance(1, 4):
+            ends = [e for e in c["events"] if (e["k"] == "http" and e.get("end")) or e["k"] == "jend"]
+            if ends:
+                rng.choice(ends)["cancelled"] = True
+    return out
+
+
+def _gen(rng, tier):
     out = []
     if tier == "quick":
         n_t, n_r = 100, 100
@@ -637,6 +662,10 @@ def ev_term(e, on_error=""):
     if k == "jbatch" and "poison" in e and on_error != LOG:
         # the run stops at the refused entity: what is in front of it is written, the call fails
         return "DJobPageFail %d %s" % (e["n"], vlib.coq_list([ent_term(x) for x in e["ents"][:e["poison"]]]))
+    if k == "http" and e.get("cancelled") and e.get("end"):
+        return "DCancelledEnd (EHttp %s %d true %s)" % (vlib.coq_bool(e.get("start", False)), e.get("id", 0), ents)
+    if k == "jend" and e.get("cancelled"):
+        return "DCancelledEnd (EJobEnd %d)" % e["n"]
     if k == "http":
         return "%s (EHttp %s %d %s %s)" % ("DSinkHttp" if e.get("sink") else "DEv",vlib.coq_bool(e.get("start", False)), e.get("id", 0),
                                             vlib.coq_bool(e.get("end", False)), ents)
@@ -735,6 +764,11 @@ class _Cur:
         self.started, self.seen, self.lease, self.sid, self.own = False, set(), False, 0, None
         self.why_dead = why
 
+    def abandon(self):
+        """CompleteFullSync entered with a cancelled context: nothing swept, the deferred reset drops the sync"""
+        self.started, self.seen, self.lease, self.sid, self.own = False, set(), False, 0, None
+        self.why_dead = "completed"
+
     def expire_all(self, only_old=False):
         while self.timers and (self.timers[0][2] or not only_old):
             sid, gen, _ = self.timers.pop(0)
@@ -766,12 +800,18 @@ class _Cur:
                 if not self.lease:
                     return 2
                 self.cancel()
+                if e.get("cancelled"):
+                    self.abandon()
+                    return 4
                 self.complete("http-end-on-job-sync" if isinstance(self.own, tuple) else "completed")
             return 0
         if k == "jstart":
             self.start_full_sync(("job", e["n"]))
         elif k in ("jbatch", "txn"):
             self.store(ents)
+        elif k == "jend" and e.get("cancelled"):
+            self.abandon()
+            return 6
         elif k == "jend":
             self.complete("completed")
         elif k == "expire":
@@ -895,7 +935,7 @@ def classify(c, o):
 
 def tags(c, o):
     ks = [e["k"] for e in c["events"]]
-    t = ["outcome=" + o.get("outcome", "?"), "len=%d" % min(len(ks), 12),
+    t = ["outcome=" + o.get("outcome", "?"), "len=%d" % min(len(ks), 12), "sync-ids=" + ("long" if c.get("long_ids") else "short"),
          "jobs-via=" + ("FullSyncPipeline.sync" if c.get("pipeline") else "datasetSink calls")]
     if o.get("tries", 1) > 1:
         t.append("retried")
